@@ -29,14 +29,14 @@ func c06Counts(tier string) (mut, shapes, scaling, wire int64) {
 	if tier == "thorough" {
 		return 150000, 4000, int64(len(c06Families)) * 4, 600
 	}
-	return 2600, 370, int64(len(c06Families)), 24
+	return 2600, 440, int64(len(c06Families)), 24
 }
 
 func init() {
 	Register(&Prop{
 		ID:         "C06",
 		Gomaxprocs: 2,
-		Rule:       "byte strings up to 64 KiB: (1) journals from G and hand-written corner snippets mutated by 1-6 operators (bit flips, deletions, duplications, truncation, splices of a dictionary of syntax fragments, invalid UTF-8 sequences, control characters, BOM, Unicode blanks and separators, extreme numbers and exponents, malformed dates; plus a fixed list of extreme exponents in every amount position, each spelled with blanks, tabs, no-break spaces, commas, dots, signs and leading zeros inside the exponent), (2) parametric hostile shapes (one long line, 'a|a|a|...' headers, deeply nested account names, huge digit strings, grouped numbers, thousands of tags, brackets, quotes, blank lines, tiny transactions, postings, directives with sub-directives, include lines, ...) at sizes up to 64 KiB. Each input: the lexer is run alone (progress oracle: token spans inside the input, left to right, no overlap, gaps only blanks, EOF token at len(input), token count <= 2n+8), then the document is opened in an in-process server and diagnostics plus every feature request at hostile positions (origin, inside, past the end of line and file, huge, inside surrogate pairs; every position for a third of the documents below 300 bytes) must return; a panic, a fatal error, more than 3 GiB resident or 10 s CPU for one request (background analysis included) ends the child and is attributed to the journalled input. CPU time (getrusage, not wall clock): a request may use 250 ms + 10 us per input byte on the thread it runs on (0.9 s at 64 KiB; a linear pass costs 1-30 ms), a notification with the analysis it starts 600 ms + 15 us per byte of the whole process (garbage collection is billed there). (3) scaling oracle: each shape family at 2, 16 and 64 KiB, per-byte CPU cost of every request may grow at most 6-fold from 2 KiB to 64 KiB (quadratic = 32-fold); judged only when the 64 KiB request costs >= 30 ms. (4) wire sessions against the built binary with the input both as didOpen text and as an included file on disk (raw bytes): every request must be answered, the process must stay alive, child CPU per request bounded as above. Non-trivial = inputs that differ from every seed; distinct by input hash.",
+		Rule:       "byte strings up to 64 KiB: (1) journals from G and hand-written corner snippets mutated by 1-6 operators (bit flips, deletions, duplications, truncation, splices of a dictionary of syntax fragments, invalid UTF-8 sequences, control characters, BOM, Unicode blanks and separators, extreme numbers and exponents, malformed dates; plus a fixed list of extreme exponents in every amount position, each spelled with blanks, tabs, no-break spaces, commas, dots, signs and leading zeros inside the exponent), (2) parametric hostile shapes (one long line, 'a|a|a|...' headers, deeply nested account names, huge digit strings, grouped numbers, thousands of tags, brackets, quotes, an opening mark alternating with a word / number / account on one line in posting and header position (40 families), blank lines, tiny transactions, postings, directives with sub-directives, include lines, ...) at sizes up to 64 KiB. Each input: the lexer is run alone (progress oracle: token spans inside the input, left to right, no overlap, gaps only blanks, EOF token at len(input), token count <= 2n+8), then the document is opened in an in-process server and diagnostics plus every feature request at hostile positions (origin, inside, past the end of line and file, huge, inside surrogate pairs; every position for a third of the documents below 300 bytes) must return; a panic, a fatal error, more than 3 GiB resident or 10 s CPU for one request (background analysis included) ends the child and is attributed to the journalled input. CPU time (getrusage, not wall clock): a request may use 250 ms + 10 us per input byte on the thread it runs on (0.9 s at 64 KiB; a linear pass costs 1-30 ms), a notification with the analysis it starts 600 ms + 15 us per byte of the whole process (garbage collection is billed there). (3) scaling oracle: each shape family at 2, 16 and 64 KiB, per-byte CPU cost of every request may grow at most 6-fold from 2 KiB to 64 KiB (quadratic = 32-fold); judged only when the 64 KiB request costs >= 30 ms. (4) wire sessions against the built binary with the input both as didOpen text and as an included file on disk (raw bytes): every request must be answered, the process must stay alive, child CPU per request bounded as above. Non-trivial = inputs that differ from every seed; distinct by input hash.",
 		Notes:      []string{"no coverage guidance: the mutation operators and the dictionary are fixed, inputs are a function of (seed, index)", "a request that neither returns nor burns CPU is reported by the generous wall-clock watchdog as inconclusive"},
 		Cases: func(tier string) int64 {
 			a, b, c, d := c06Counts(tier)
@@ -199,6 +199,22 @@ var c06Extremes = []string{
 	"2024-01-01 x\n    a  9e9223372036854775807 A\n    b\n",
 	"99999999999-01-01 x\n    a  1\n",
 	"2024-01-01 x\n    a  1 A\n    a  1e300000 A\n    a  -1e300000 A\n    b\n",
+}
+
+// two kinds of token alternating on one long line: look-ahead that is remembered per kind must
+// stay remembered when the kinds interleave (an opening mark followed by a word, again and again,
+// with the closing mark / colon far to the right or missing)
+func init() {
+	xn := map[string]string{"(": "paren", "[": "bracket", "\"": "quote", "{": "brace"}
+	yn := map[string]string{"A": "word", "1": "digit", "a:b": "account", " A": "blank-word", "A ": "word-blank"}
+	for _, x := range []string{"(", "[", "\"", "{"} {
+		for _, y := range []string{"A", "1", "a:b", " A", "A "} {
+			x, y := x, y
+			c06Families = append(c06Families,
+				c06Family{"alt-posting-" + xn[x] + "-" + yn[y], func(n int) string { return "2024-01-01 x\n    " + rep(x+y, n) + ":b  1 USD\n    c\n" }},
+				c06Family{"alt-header-" + xn[x] + "-" + yn[y], func(n int) string { return "2024-01-01 " + rep(x+y, n) + "\n    a  1\n    b\n" }})
+		}
+	}
 }
 
 // exponents written with digit group marks, signs and leading zeros: what the lexer accepts as
